@@ -45,6 +45,8 @@ func (m *patternMatcher) matchToEnd() []Capture {
 	m.captures[0].start = m.si
 	for {
 		m.match()
+		// Each attempt costs one unit, even if it goes through no item.
+		m.consumeBudget()
 		if m.si == -1 {
 			return nil
 		}
@@ -58,6 +60,10 @@ func (m *patternMatcher) matchToEnd() []Capture {
 
 func (m *patternMatcher) match() {
 	for m.pi < len(m.items) {
+		// Each step costs one unit, on top of one unit per byte consumed, so
+		// that steps consuming no input (optional or empty items, captures,
+		// frontiers, backtracking) are accounted for.
+		m.consumeBudget()
 		switch item := m.items[m.pi]; item.ptnType {
 		case ptnOnce:
 			if !m.matchNext(item.bytes) {
@@ -101,7 +107,13 @@ func (m *patternMatcher) match() {
 			c := m.captures[item.bytes[0]]
 			end := m.si + c.end - c.start
 			// A position capture (c.end == -1) holds no string: it never matches.
-			if c.end >= 0 && end <= len(m.s) && m.s[c.start:c.end] == m.s[m.si:end] {
+			matched := false
+			if c.end >= 0 && end <= len(m.s) {
+				// Comparing costs one unit per byte of the capture.
+				m.consumeBudgetN(c.end - c.start)
+				matched = m.s[c.start:c.end] == m.s[m.si:end]
+			}
+			if matched {
 				m.si = end
 				m.pi++
 			} else {
@@ -211,6 +223,16 @@ func (m *patternMatcher) consumeBudget() {
 	if m.budget == 0 {
 		panic(budgetConsumed)
 	}
+}
+
+func (m *patternMatcher) consumeBudgetN(n int) {
+	if m.budget == 0 {
+		return
+	}
+	if uint64(n) >= m.budget {
+		panic(budgetConsumed)
+	}
+	m.budget -= uint64(n)
 }
 
 var budgetConsumed interface{} = "budget consumed"
